@@ -245,6 +245,12 @@ func (s *sim) op(x int, what string) {
 	synctest.Wait()
 }
 
+func (s *sim) txTotal() int {
+	s.mu.Lock()
+	defer s.mu.Unlock()
+	return s.txCount[0] + s.txCount[1]
+}
+
 // headAge: how long the packet at the head of channel x has been in flight.
 func (s *sim) headAge(x int) time.Duration {
 	s.mu.Lock()
